@@ -12,6 +12,8 @@ V = "sqlgrep::model::Value"
 
 def run(R):
     P = R.prog
+    from . import rules_c16
+    rules_c16.run_keys(R, rid="C05.key", owner_prefix="sqlgrep::execution::join", floor=2)
     R.rule("C05.err", "a missing joined file, table or join column reaches the caller as an error (Try::branch -> FromResidual), never an empty result")
     R.rule("C05.nullkey", "the join index is a SQL-equality site: NULL keys are neither inserted nor looked up")
     R.rule("C05.pairs", "for an input row every partner row yields one execute call and one merge of its result on every path; the only other "
